@@ -12,6 +12,11 @@ CLAIMED = {
          "Trusts testing/fstest.MapFS, io/fs helpers and path.Match; ReadDir on stacks made only of nil layers is not asserted (the repository's own suite pins [] , nil there).",
          "DESIGN.md §6 C18"),
 }
+CLAIMED["C01"] = ("exploration",
+ "bounded exhaustive enumeration of hostile strings x sinks x neighbourhoods + rapid random token sequences; metamorphic oracle (harmless word vs hostile value) on the HTML5 re-parse, plus sink-content equality and a canary variable",
+ "Every hostile token string up to length 2 (quick) / 3 (thorough) over a 14-token core alphabet, and rapid-generated longer ones, is pushed through 18 escaped sinks (text, v-text, interpolated/bound/class/style attributes, v-for item, include props, slot props, layout variables, v-if/v-else on the sink element) in 9 static neighbourhoods written with character references and 7 enclosing constructs. The HTML5 parse of the output must have the same elements and attribute names as with a harmless word, the sink must contain exactly neighbours+value, and a canary variable in scope must never be printed. Exhaustive within the bound, sampled beyond.",
+ "Trusts golang.org/x/net/html as the HTML5 parser. v-html and script/style bodies are exempt as documented; falsy bound values are left to C14; JSON-looking static include props are only checked for parse-equality and the canary.",
+ "DESIGN.md §6 C01")
 NOT_YET = "check under construction in this session; not claimed until it is built and silent on the unchanged tree"
 
 def main():
